@@ -86,8 +86,84 @@ class C01:
                            'scaling': rng.choice(
                                [1.0, 0.8, rfloat(rng, 0.1, 2.0, 4)]),
                            'sckind': sk})
+        # near-duplicates: the same calculation with exactly one argument
+        # changed (index, radius, position, or one optics value), so that
+        # state keyed on too little of the input shows up as a wrong value
+        for _ in range(rng.randint(0, 3)):
+            t0 = rng.choice(tuples)
+            op0, a0, m0 = recipes['sc'][t0['sc']]
+            t1 = dict(t0)
+            what = rng.choice(['n', 'r', 'center', 'optics', 'optics'])
+            if op0 == 'sphere' and what in ('n', 'r', 'center') and \
+                    a0.get('center') is not None:
+                a1 = json.loads(json.dumps(a0))
+                if what == 'n':
+                    a1['n'] = G.draw_index(rng) if not isinstance(
+                        a0['n'], list) else [G.draw_index(rng, 0.1)
+                                             for _ in a0['n']]
+                elif what == 'r' and not isinstance(a0['r'], list):
+                    a1['r'] = rfloat(rng, 0.2, 0.9, 4)
+                else:
+                    a1['center'] = [a0['center'][0], a0['center'][1],
+                                    round(a0['center'][2] + rfloat(
+                                        rng, 0.5, 3, 3), 4)]
+                recipes['sc'].append((op0, a1, m0))
+                t1['sc'] = len(recipes['sc']) - 1
+            else:
+                dm = recipes['det'][t0['det']][2]
+                base = dict(dm.get('optics') or {})
+                base.update(t0['optics'] or {})
+                if not base.get('illum_wavelen') or \
+                        not base.get('medium_index'):
+                    continue
+                o1 = dict(t0['optics'] or {})
+                kk = rng.choice(['illum_wavelen', 'medium_index'])
+                o1[kk] = round(base[kk] * rng.choice([0.9, 1.1, 1.25]), 6)
+                t1['optics'] = o1
+            tuples.append(t1)
         nops = rng.randint(12, 40 if tier == 'quick' else 60)
         handles = {}
+        # multi-channel scenario: one calculation with 2-3 illumination
+        # channels and the corresponding single-channel calculations, spread
+        # over the history
+        mc_ops = []
+        if rng.random() < 0.3:
+            chans = rng.choice([['red', 'green'], ['red', 'green', 'blue']])
+            shp = [rng.randint(2, 8), rng.randint(2, 8)]
+            spc = rng.choice([0.1, 0.13])
+            wl = {c_: rfloat(rng, 0.4, 0.7, 3) for c_ in chans}
+            mi = rng.choice([1.33, 1.0])
+            pol = rng.choice([[1, 0], [0, 1], [0.6, 0.8]])
+            skm = rng.choice(['sphere', 'sphere', 'layered', 'spheres'])
+            scm = G.draw_scatterer(rng, skm, [shp[0] * spc, shp[1] * spc])
+            recipes['sc'].append(scm)
+            scm_i = len(recipes['sc']) - 1
+            recipes['det'].append((
+                'detector_grid', {'shape': shp, 'spacing': spc, 'name': None,
+                                  'extra_dims': {'illumination': chans},
+                                  'optics': None, 'shift': None},
+                {'kind': 'grid_mc', 'optics': None}))
+            mcd_i = len(recipes['det']) - 1
+            recipes['det'].append((
+                'detector_grid', {'shape': shp, 'spacing': spc, 'name': None,
+                                  'optics': None, 'shift': None},
+                {'kind': 'grid', 'optics': None}))
+            scd_i = len(recipes['det']) - 1
+            thm = rng.choice(['auto', 'class:Mie'])
+            kindm = rng.choice(['holo', 'field', 'intensity'])
+            items = list(wl.items())
+            rng.shuffle(items)
+            grp = 'mc%d' % rng.randrange(10 ** 6)
+            mc_ops.append(('mc', mcd_i, scm_i, thm, kindm,
+                           {'medium_index': mi, 'illum_polarization': pol,
+                            'illum_wavelen': {'dict': [list(i) for i in items]}},
+                           {'mc': grp}))
+            for c_ in chans:
+                mc_ops.append(('sc', scd_i, scm_i, thm, kindm,
+                               {'medium_index': mi, 'illum_polarization': pol,
+                                'illum_wavelen': wl[c_]},
+                               {'mc_single': grp, 'channel': c_}))
+            rng.shuffle(mc_ops)
 
         def ensure(kind, i):
             key = (kind, i)
@@ -99,6 +175,16 @@ class C01:
         kinds_w = ['field'] * 3 + ['holo'] * 4 + ['intensity'] * 2 + \
             ['holo0'] + ['scat_matrix'] + ['cross_sections']
         for n in range(nops):
+            if mc_ops and rng.random() < 0.25:
+                _, di_, si_, th_, kd_, opt_, tg_ = mc_ops.pop()
+                args = {'kind': kd_, 'det': ensure('det', di_),
+                        'sc': ensure('sc', si_), 'th': th_, 'optics': opt_}
+                if kd_ == 'holo':
+                    args['scaling'] = 0.9
+                tags = {'k': 'multichannel', 'calc': True, 'ref': True}
+                tags.update(tg_)
+                b.emit('calc', args, tags=tags)
+                continue
             t = rng.choice(tuples)
             c = rng.random()
             if faults['F1'] and c < 0.04:
@@ -231,6 +317,52 @@ class C01:
                                   ('det', 'sc', 'th', 'optics')},
                                  sort_keys=True)
                 groups.setdefault(key, []).append((ev, rec))
+        # --- multi-channel = stacked single-channel
+        mcs, singles = {}, {}
+        for ev in ex.run['events']:
+            tg = ev.get('tags', {})
+            rec = ex.records.get(ev.get('id'))
+            if not rec or rec['outcome'] != 'ok' or not O.is_da(
+                    rec.get('payload')):
+                continue
+            if 'mc' in tg:
+                mcs[tg['mc']] = (ev, rec)
+            elif 'mc_single' in tg:
+                singles.setdefault(tg['mc_single'], {})[tg['channel']] = rec
+        for g_, (ev, rec) in mcs.items():
+            p = rec['payload']
+            if 'illumination' not in p['dims']:
+                ex.add(violation('C01.channels', ev['id'],
+                                 'multi-channel result has no illumination '
+                                 'dimension', sig='C01.channels:dims'))
+                continue
+            labels = [str(x) for x in np.asarray(
+                p['coords']['illumination']['values']).tolist()]
+            ax = p['dims'].index('illumination')
+            for ch, srec in singles.get(g_, {}).items():
+                if ch not in labels:
+                    continue
+                ex.stats['oracle_sampled'] += 1
+                xc = ex.stats.setdefault('extra', {})
+                xc['channels_compared'] = xc.get('channels_compared', 0) + 1
+                sl = np.take(p['values'], labels.index(ch), axis=ax)
+                dims = [d for d in p['dims'] if d != 'illumination']
+                sp_ = srec['payload']
+                try:
+                    sv = np.transpose(sp_['values'],
+                                      [sp_['dims'].index(d) for d in dims])
+                except ValueError:
+                    continue
+                err = float(np.max(np.abs(sl - sv))) if sl.shape == sv.shape \
+                    else float('inf')
+                if not err <= 1e-12 * max(1.0, float(np.max(np.abs(sv)))):
+                    ex.add(violation(
+                        'C01.channels', ev['id'],
+                        'channel %r of the multi-channel %s differs from the '
+                        'single-channel calculation by %.3g' % (
+                            ch, rec['rargs']['kind'], err),
+                        sig='C01.channels:value'))
+                    break
         # --- per-group identities
         for key, items in groups.items():
             fields = [(e, r) for e, r in items
@@ -354,6 +486,12 @@ class C01:
         got = rattrs.get('illum_polarization')
         if want is not None:
             gv = got['values'] if O.is_da(got) else None
+            if gv is not None and gv.ndim == 2 and O.is_da(got) and \
+                    'illumination' in got['dims']:
+                # broadcast over the illumination channels
+                gv2 = np.moveaxis(gv, got['dims'].index('vector'), -1)
+                if np.max(np.abs(gv2 - want)) <= 4 * EPS:
+                    gv = want
             if gv is None or gv.shape != (3,) or \
                     np.max(np.abs(gv - want)) > 4 * EPS:
                 ex.add(violation(
